@@ -305,4 +305,47 @@ theorem takeN_isort_flatten {gt : α → α → Bool} (hgt : StrictWeak gt) (N :
     exact takeN_isort_congr hgt N hfd
       (ih (hn.sublist (sublist_append_right _ _)) (hn'.sublist (sublist_append_right _ _))) hn hn'
 
+theorem Forall₂.imp {γ δ : Type} {R S : γ → δ → Prop} (h : ∀ a b, R a b → S a b) {l₁ : List γ} {l₂ : List δ}
+    (hr : Forall₂ R l₁ l₂) : Forall₂ S l₁ l₂ := by
+  induction hr with
+  | nil => exact .nil
+  | cons hab _ ih => exact .cons (h _ _ hab) ih
+
+theorem Forall₂.mem_right {γ δ : Type} {R : γ → δ → Prop} {l₁ : List γ} {l₂ : List δ}
+    (h : Forall₂ R l₁ l₂) : Forall₂ (fun a b => R a b ∧ b ∈ l₂) l₁ l₂ := by
+  induction h with
+  | nil => exact .nil
+  | cons hab _ ih => exact .cons ⟨hab, by simp⟩ (ih.imp fun a b h => ⟨h.1, by simp [h.2]⟩)
+
+theorem Forall₂.map_right {γ δ ε : Type} {R : γ → ε → Prop} (g : δ → ε) {l₁ : List γ} {l₂ : List δ}
+    (h : Forall₂ (fun a b => R a (g b)) l₁ l₂) : Forall₂ R l₁ (l₂.map g) := by
+  induction h with
+  | nil => exact .nil
+  | cons hab _ ih => exact .cons hab ih
+
+theorem mem_flatten_of_forall₂ {fruits segs : List (List (Entry α))}
+    (h : Forall₂ (fun f d => ∀ x, x ∈ f → x ∈ d) fruits segs) {b : Entry α} (hb : b ∈ fruits.flatten) :
+    b ∈ segs.flatten := by
+  induction h with
+  | nil => exact hb
+  | cons hfd _ ih =>
+    simp only [flatten_cons, mem_append] at hb ⊢
+    rcases hb with hb | hb
+    · exact Or.inl (hfd b hb)
+    · exact Or.inr (ih hb)
+
+/-- fruits that are duplicate-free sub-collections of their segments are duplicate-free together -/
+theorem addrNodup_flatten_of_sub {fruits segs : List (List (Entry α))}
+    (h : Forall₂ (fun f d => (∀ x, x ∈ f → x ∈ d) ∧ AddrNodup f) fruits segs)
+    (hn : AddrNodup segs.flatten) : AddrNodup fruits.flatten := by
+  induction h with
+  | nil => exact Pairwise.nil
+  | cons hfd hrest ih =>
+    simp only [flatten_cons] at hn ⊢
+    unfold AddrNodup at hn ⊢
+    rw [pairwise_append] at hn ⊢
+    refine ⟨hfd.2, ih hn.2.1, ?_⟩
+    intro a ha b hb
+    exact hn.2.2 a (hfd.1 a ha) b (mem_flatten_of_forall₂ (hrest.imp fun _ _ h => h.1) hb)
+
 end TantivyModel.TopN
